@@ -172,3 +172,11 @@ Definition resume_time_chk (L : lcy) : res N :=
        sub_chk a b)%res
   | None => Ok (l_start L)
   end.
+
+(* the periodic ("regular") refresh test of the detector, on u32 message indices:
+     repaired (4811f3c):  last_regular_refresh_index.saturating_add(100_000) < last_msg_index
+     before:              last_regular_refresh_index + 100_000 < last_msg_index          (checked add in a debug build) *)
+Definition sat_add (max a b : N) : N := N.min max (a + b).
+Definition refresh_due_sat (lastreg lastidx : N) : bool := sat_add u32max lastreg 100000 <? lastidx.
+Definition refresh_due_before_fix (lastreg lastidx : N) : res bool :=
+  (s <- add_chk u32max lastreg 100000 ;; Ok (s <? lastidx))%res.
